@@ -1,18 +1,18 @@
 SPECIFICATION Spec
 CONSTANTS
   Configs <- TheConfigs
-  ScriptLen = 2
+  ScriptLen = 0
   LongScripts = TRUE
   Ops <- AllOps
-  Formats = {"xml"}
+  Formats = {"opl", "pbf"}
   Comps = {"plain", "gzip", "bzip2"}
-  Pools = {TRUE}
-  Bounds = {1}
-  Caps = {2}
+  Pools = {FALSE, TRUE}
+  Bounds = {2}
+  Caps = {1, 2}
   MaxAt = 9
   FaultKinds <- AllKinds
   FdFix = TRUE
   GenFormats = {"xml"}
   GenComps = {"plain"}
-  GenScriptLen = 1
+  GenScriptLen = 0
 INVARIANTS TypeOK LogAllowed CompleteOrThrows NeverLost NoSpuriousException RefusesAfterException FutureReadOnce NoThreadLeft NoFdLeft QueueBound
